@@ -171,7 +171,7 @@ func modelCalls(s string) []string {
 
 func runC11(ctx *Ctx) error {
 	r, res := ctx.Rng, ctx.Res
-	res.Rule = "(a) system-call correspondence: AddOut, ProcessInbound, SetUnread and SetSent are each executed by the real code in a child process under strace; the calls on files below the mailbox (open for writing, write, close, rename, unlink) must equal the model's call sequence. (b) crash points: for stores of messages of several sizes into mailboxes with existing messages (including an older copy under the same MID), every k in 0..4 and every j (quick: 24 prefix lengths incl. 0, 1, len-1, len; thorough: every byte) and both crash points of SetSent: the model's crash state is materialised in a temporary directory and the REAL recovery code runs on it (fresh DirHandler: Prepare, Inbox/Outbox/Sent listings, GetInboundAnswer, GetOutbound). Oracle: every folder loads without error, previously stored messages are byte-identical, an outbound message is in exactly one of outbox/sent, 'already received' only with a complete copy in the inbox (also after a store that failed at its first system call: MIDs of 250..5000 bytes, a symlink loop in the message's place). Non-trivial: crash inside the write or between write and rename; distinct by (operation, size, k, j)."
+	res.Rule = "(a) system-call correspondence: AddOut, ProcessInbound, SetUnread and SetSent are each executed by the real code in a child process under strace; the calls on files below the mailbox (open for writing, write, close, rename, unlink) must equal the model's call sequence. (b) crash points: for stores of messages of several sizes into mailboxes with existing messages (including an older copy under the same MID), every k in 0..4 and every j (quick: 24 prefix lengths incl. 0, 1, len-1, len; thorough: every byte) and both crash points of SetSent: the model's crash state is materialised in a temporary directory and the REAL recovery code runs on it (fresh DirHandler: Prepare, Inbox/Outbox/Sent listings, GetInboundAnswer, GetOutbound). Oracle: every folder loads without error, previously stored messages are byte-identical, an outbound message is in exactly one of outbox/sent, 'already received' only with a complete copy in the inbox (also for MIDs that differ from a stored one by the mailbox's file extension, and after a store that failed at its first system call: MIDs of 250..5000 bytes, a symlink loop in the message's place). Non-trivial: crash inside the write or between write and rename; distinct by (operation, size, k, j)."
 	root, err := os.MkdirTemp("", "verif-c11-")
 	if err != nil {
 		return err
@@ -381,6 +381,19 @@ func runC11(ctx *Ctx) error {
 				ans := h.GetInboundAnswer(*fbb.NewProposal(mid, "t", fbb.Wl2kProposal, []byte("x")))
 				if ans == fbb.Reject && !(present && (bytes.Equal(got, c.newB) || (hadOld && bytes.Equal(got, old)))) {
 					res.Fail(Failure{Kind: "oracle", Site: "already-received-without-complete-copy", Case: cs})
+				}
+				// MIDs that differ from a stored one only by the mailbox's own file extension are other
+				// messages: no copy of them is in the inbox, and storing one leaves the stored ones intact
+				for _, rel := range []string{mid + ".b2f", "OLDIN1.b2f"} {
+					if h.GetInboundAnswer(*fbb.NewProposal(rel, "t", fbb.Wl2kProposal, []byte("x"))) == fbb.Reject {
+						res.Fail(Failure{Kind: "oracle", Site: "already-received-without-complete-copy", Case: cs, Detail: "asked about " + rel + ", of which no copy is stored"})
+					}
+				}
+				if c.k == 4 {
+					h.ProcessInbound(c11Message("OLDIN1.b2f", 50))
+					if raw, _ := os.ReadFile(filepath.Join(dir, "in", "OLDIN1.b2f")); !bytes.Equal(raw, c.base["in/OLDIN1.b2f"]) {
+						res.Fail(Failure{Kind: "oracle", Site: "stored-message-damaged", Case: cs, Detail: "in/OLDIN1.b2f after a message with the MID OLDIN1.b2f was stored"})
+					}
 				}
 			}
 			if strings.HasPrefix(c.target, "out/") {
